@@ -157,7 +157,13 @@ func one(r *rand.Rand, t int, emit func(map[string]interface{})) {
 		for ai := 1; ai <= sh.NA[id]; ai++ {
 			// every action also scribbles on its event and reports ('!') when it finds the scribble of
 			// another execution: each execution is to see the event as it arrived
-			code := fmt.Sprintf("if (P('a|%s|'+w+'|'+c+'|%d', 'a|%s|%d')) { throw 'aboom'; } var seen = (event.z === undefined) ? '' : '!'; event.z = 1; 'v|%s|'+w+'|'+c+'|%d' + seen", id, ai, id, ai, id, ai)
+			// (only the actions of serial rules write: they run one after the other, so a shared event
+			// shows as a '!' and not as a fatal concurrent map access of the Go runtime)
+			scribble := ""
+			if sh.Serial[id] {
+				scribble = "event.z = 1; "
+			}
+			code := fmt.Sprintf("if (P('a|%s|'+w+'|'+c+'|%d', 'a|%s|%d')) { throw 'aboom'; } var seen = (event.z === undefined) ? '' : '!'; %s'v|%s|'+w+'|'+c+'|%d' + seen", id, ai, id, ai, scribble, id, ai)
 			acts = append(acts, map[string]interface{}{"code": code})
 		}
 		rule := map[string]interface{}{
